@@ -177,7 +177,7 @@ impl Lattice {
             }
         }
         let r_node = self.eos.as_ref().unwrap();
-        for l_node in &self.ends[self.len_char()] {
+        for l_node in &self.ends[r_node.start_node] {
             counter.add(r_node.left_id, l_node.right_id, 1);
         }
     }
